@@ -201,10 +201,50 @@ macro_rules! chk {
     ($tag:literal, $c:expr) => {{
         let c: bool = $c;
         #[cfg(kani)]
-        kani::assert(c, $tag);
+        {
+            // Kani ASSUMES an assertion after checking it, so a failing obligation hides every later one that fails only on
+            // the same inputs. When the runner re-decides a harness for a property to which an already-failed obligation does
+            // not belong, it rebuilds with VERIF_SKIP_TAGS=<tag,...>: those obligations are then neither asserted nor assumed.
+            const SKIP: bool = $crate::vsrc::tag_skipped($tag);
+            if !SKIP {
+                kani::assert(c, $tag);
+            }
+        }
         #[cfg(not(kani))]
         $crate::vsrc::native::check($tag, c);
     }};
+}
+
+/// compile-time membership test of `tag` in the comma-separated list VERIF_SKIP_TAGS (unset = nothing skipped)
+pub const fn tag_skipped(tag: &str) -> bool {
+    let list = match option_env!("VERIF_SKIP_TAGS") {
+        Some(l) => l.as_bytes(),
+        None => return false,
+    };
+    let t = tag.as_bytes();
+    let mut i = 0;
+    while i <= list.len() {
+        // candidate item starts at i, ends at next comma / end
+        let mut j = i;
+        while j < list.len() && list[j] != b',' {
+            j += 1;
+        }
+        if j - i == t.len() {
+            let mut k = 0;
+            let mut same = true;
+            while k < t.len() {
+                if list[i + k] != t[k] {
+                    same = false;
+                }
+                k += 1;
+            }
+            if same && t.len() > 0 {
+                return true;
+            }
+        }
+        i = j + 1;
+    }
+    false
 }
 
 /// Assumption (input constraint / representation invariant).
